@@ -65,7 +65,8 @@ where
     fn is_bareword(s: &str) -> bool {
         match s.chars().nth(0) {
             Some(c) => {
-                if !(c.is_ascii_alphabetic() || c == '_') {
+                // The tokenizer only starts a bareword at a letter.
+                if !c.is_ascii_alphabetic() {
                     return false;
                 }
             }
